@@ -743,6 +743,12 @@ def _shrink(law: str, ts: list[Any], budget: int = 300) -> tuple[str, list[Any]]
                 cands.append(cand)
         if len(cur) == 2:
             cands += [[c0, c1] for c0 in components(cur[0]) for c1 in components(cur[1])]
+        elif len(cur) == 3:
+            comps = [components(c) for c in cur]
+            if len({len(c) for c in comps}) == 1:
+                # same shape (e.g. G[X] <= G[Y] <= G[Z]): descend position-wise in all three at once
+                cands += [[comps[0][k], comps[1][k], comps[2][k]] for k in range(len(comps[0]))]
+            cands += [[c0, cur[1], c2] for c0 in comps[0] for c2 in comps[2]]
         for cand in cands:
             n += 1
             r = _check_family(fam, cand)
